@@ -229,3 +229,137 @@ def c09_3(run):
     if not kept:
         raise Inconclusive('vacuity: no path keeps the metadata')
     run.require_reached(*run.cur.reach)
+
+
+# ----------------------------------------------------------------------------------------------------------------- C09-4
+PROOF_OK = z3.Function('merkle_audit_ok', z3.BitVecSort(256), z3.BitVecSort(256), z3.BitVecSort(256), z3.BitVecSort(256), z3.BoolSort())   # (proof, root, rollup id, tx root)
+TXROOT = z3.Function('merkle_root_of_transactions', z3.BitVecSort(256), z3.BitVecSort(256))
+
+
+def reconstruct_hooks():
+    def attr(name, as_ref=True):
+        def h(ctx):
+            o = ctx.ex.deref_val(ctx.st, ctx.args[0])
+            v = o.attrs[name]
+            return [(None, B.cell(v) if as_ref else v)]
+        return h
+
+    def h_contains(ctx):
+        o = ctx.ex.deref_val(ctx.st, ctx.args[0])
+        return [(None, o.attrs['lists_rollup'])]
+
+    def h_md_unchecked(ctx):
+        o = ctx.ex.deref_val(ctx.st, ctx.args[0])
+        u = B.struct(ctx.ex, 'UncheckedSubmittedMetadata', block_hash=o.attrs['block_hash'], header=o.attrs['header'])
+        return [(None, u)]
+
+    def h_rd_unchecked(ctx):
+        o = ctx.ex.deref_val(ctx.st, ctx.args[0])
+        u = B.struct(ctx.ex, 'UncheckedSubmittedRollupData', sequencer_block_hash=o.attrs['sequencer_block_hash'], rollup_id=o.attrs['rollup_id'], transactions=o.attrs['transactions'], proof=o.attrs['proof'])
+        return [(None, u)]
+
+    def h_audit(ctx):
+        a = Obj('merkle::Audit'); a.attrs['proof'] = ctx.ex.deref_val(ctx.st, ctx.args[0]); a.attrs['writes'] = []
+        return [(None, a)]
+
+    def h_with_root(ctx):
+        a = ctx.ex.deref_val(ctx.st, ctx.args[0]); a.attrs['root'] = ctx.ex.deref_val(ctx.st, ctx.args[1])
+        return [(None, a)]
+
+    def h_same(ctx):
+        return [(None, ctx.ex.deref_val(ctx.st, ctx.args[0]))]
+
+    def h_write(ctx):
+        a = ctx.ex.deref_val(ctx.st, ctx.args[0])
+        v = ctx.ex.deref_val(ctx.st, ctx.args[1])
+        a.attrs['writes'] = a.attrs['writes'] + [v]
+        return [(None, a)]
+
+    def h_from_leaves(ctx):
+        v = ctx.ex.deref_val(ctx.st, ctx.args[0])
+        t = Obj('merkle::Tree'); t.attrs['root'] = TXROOT(M.ident(v))
+        return [(None, t)]
+
+    def h_perform(ctx):
+        a = ctx.ex.deref_val(ctx.st, ctx.args[0])
+        w = a.attrs['writes']
+        if len(w) != 2 or not all(z3.is_bv(x) and x.size() == 256 for x in w) or 'root' not in a.attrs:
+            ctx.st.log.append(('audit-malformed', len(w)))
+            r = z3.Bool(f'malformed_audit_{len(ctx.st.log)}')
+            return [(None, r)]
+        r = PROOF_OK(M.ident(a.attrs['proof']), a.attrs['root'], w[0], w[1])
+        ctx.st.log.append(('audit', M.ident(a.attrs['proof']), a.attrs['root'], w[0], w[1], r))
+        return [(None, r)]
+    R = re.compile
+    return [(R(r'SubmittedRollupData::sequencer_block_hash$'), attr('sequencer_block_hash')), (R(r'SubmittedRollupData::proof$'), attr('proof')), (R(r'SubmittedRollupData::rollup_id$'), attr('rollup_id')),
+            (R(r'SubmittedRollupData::transactions$'), attr('transactions')), (R(r'SubmittedRollupData::into_unchecked$'), h_rd_unchecked),
+            (R(r'SubmittedMetadata::rollup_transactions_root$'), attr('root')), (R(r'SubmittedMetadata::block_hash$'), attr('block_hash')), (R(r'SubmittedMetadata::contains_rollup_id$'), h_contains),
+            (R(r'SubmittedMetadata::extended_commit_info$'), lambda ctx: [(None, none())]), (R(r'SubmittedMetadata::into_unchecked$'), h_md_unchecked),
+            (R(r'RollupId::as_bytes$'), h_same), (R(r'(^|::)Proof::audit$'), h_audit), (R(r'Audit::<.*>::with_root$|Audit::with_root$'), h_with_root),
+            (R(r'Audit::<.*>::with_leaf_builder$|Audit::with_leaf_builder$'), h_same), (R(r'LeafBuilder::<.*>::write$|LeafBuilder::write$'), h_write),
+            (R(r'LeafBuilder::<.*>::finish_leaf$|LeafBuilder::finish_leaf$'), h_same), (R(r'Audit::<.*>::perform$|Audit::perform$'), h_perform),
+            (R(r'Tree::from_leaves(::<.*>)?$'), h_from_leaves), (R(r'(^|::)Tree::root$'), attr('root', as_ref=False)),
+            (R(r'^<\[u8; 32\] as AsRef<\[u8\]>>::as_ref$|^<&\[u8; 32\] as AsRef|as Deref>::deref$'), h_same)]
+
+
+@obligation('C09', 'C09-4 reconstruct_blocks_from_verified_blobs: rollup data is attached only to the header with its block hash and only under a passing Merkle audit of (rollup id, root of its transactions) against that header\'s rollup-data root')
+def c09_4(run):
+    sc = dict(SCALARS2, **{'astria_core::sequencerblock::v1::block::Hash': 256, 'block::Hash': 256, 'astria_core::primitive::v1::RollupId': 256, 'RollupId': 256})
+    ex = loader.load(['astria-conductor', 'astria-core'], scalar_types=sc, hooks=reconstruct_hooks(), dep_adts=['tendermint'])
+    f = ex.find(r'^(celestia::reconstruct::)?reconstruct_blocks_from_verified_blobs$')
+    shapes = [(h, r) for h in (0, 1, 2) for r in (0, 1, 2)]
+    run.bound(blobs='0..2 verified header blobs (distinct block hashes = map keys) x 0..2 rollup blobs, arbitrary hashes / roots / ids / proofs', merkle='astria-merkle audit and Tree::root are oracles: uninterpreted predicate / function of their inputs (decided under C08)')
+    run.assume('header blobs are keyed by their own block hash (established by verify_metadata / the HashMap construction in verify.rs)')
+    n_with = n_empty = 0
+    for nh, nr in shapes:
+        hdrs = []
+        for i in range(nh):
+            h = Obj('astria_core::sequencerblock::v1::SubmittedMetadata')
+            hobj = Obj('astria_core::sequencerblock::v1::block::SequencerBlockHeader'); hobj.attrs['tag'] = f'hdr{i}'
+            h.attrs.update(block_hash=z3.BitVec(f'header{i}_block_hash', 256), root=z3.BitVec(f'header{i}_rollup_root', 256), lists_rollup=z3.Bool(f'header{i}_lists_rollup'), header=hobj, tag=f'md{i}')
+            hdrs.append(h)
+        rds = []
+        for j in range(nr):
+            r = Obj('astria_core::sequencerblock::v1::SubmittedRollupData')
+            txs = M.new_vec('Vec<Bytes>', []); txs.attrs['tag'] = f'txs{j}'; txs.attrs['opaque'] = True; txs.attrs['ident'] = z3.BitVec(f'rollup{j}_transactions', 256)
+            proof = Obj('astria_merkle::audit::Proof'); proof.attrs['ident'] = z3.BitVec(f'rollup{j}_proof', 256)
+            r.attrs.update(sequencer_block_hash=z3.BitVec(f'rollup{j}_block_hash', 256), rollup_id=z3.BitVec(f'rollup{j}_id', 256), transactions=txs, proof=proof, tag=f'rd{j}')
+            rds.append(r)
+        vb = B.struct(ex, 'VerifiedBlobs', celestia_height=z3.BitVec('celestia_height', 64), header_blobs=M.new_map('HashMap<block::Hash, SubmittedMetadata>', [(h.attrs['block_hash'], h) for h in hdrs]),
+                      rollup_blobs=M.new_vec('Vec<SubmittedRollupData>', rds))
+        st = ex.start(f, [vb, z3.BitVec('target_rollup_id', 256)])
+        st.pc += [hdrs[a].attrs['block_hash'] != hdrs[b].attrs['block_hash'] for a in range(nh) for b in range(a + 1, nh)]
+        for i, p in enumerate(run.explore(ex, st, allow_havoc=(r'^Arguments::|fmt::',))):
+            lab = f'[{nh} headers, {nr} rollup blobs, path {i}]'
+            if p.kind != 'return':
+                run.prove(f'no panic {lab}', p.pc, z3.BoolVal(False), detail=p.info); continue
+            blocks = [ex.deref_val(p, b) for b in p.result.attrs['items']]
+            audits = [e for e in p.log if e[0] == 'audit']
+            claim = [z3.BoolVal(not any(e[0] == 'audit-malformed' for e in p.log))]
+            used = []
+            desc = []
+            for b in blocks:
+                hd = B.fld(ex, p, b, 'header', 'SequencerBlockHeader'); txs = B.fld(ex, p, b, 'transactions', 'Vec<Bytes>'); bh = B.fld(ex, p, b, 'block_hash', 'block::Hash')
+                hi = int(hd.attrs['tag'][3:]) if isinstance(hd, Obj) and 'tag' in hd.attrs else None
+                tj = int(txs.attrs['tag'][3:]) if isinstance(txs, Obj) and 'tag' in txs.attrs else None
+                desc.append((hi, tj))
+                if hi is None:
+                    claim.append(z3.BoolVal(False)); continue
+                used.append(hi)
+                H = hdrs[hi].attrs
+                claim.append(bh == H['block_hash'])
+                if tj is not None:
+                    n_with += 1
+                    Rr = rds[tj].attrs
+                    claim += [Rr['sequencer_block_hash'] == H['block_hash'],
+                              PROOF_OK(Rr['proof'].attrs['ident'], H['root'], Rr['rollup_id'], TXROOT(Rr['transactions'].attrs['ident']))]
+                else:
+                    n_empty += 1
+                    claim += [z3.BoolVal(len(txs.attrs.get('items', [1])) == 0), z3.Not(H['lists_rollup'])]
+            claim.append(z3.BoolVal(len(set(used)) == len(used)))
+            run.sample({'headers': nh, 'rollups': nr, 'path': i, 'blocks': desc, 'audits': len(audits)})
+            run.prove(f'every reconstructed block carries the header stored under its block hash; rollup transactions only with the same block hash and a passing audit of (rollup id, transactions root) against that header\'s root; an empty block only for a header that does not list the rollup; each header used once {lab}',
+                      p.pc, z3.And(*claim))
+    if not n_with or not n_empty:
+        raise Inconclusive(f'vacuity: blocks with data {n_with}, empty blocks {n_empty}')
+    run.require_reached(*run.cur.reach)
